@@ -231,3 +231,58 @@ func nilCursors(x *Ctx, fns []*ssa.Function) {
 		}
 	}
 }
+
+// tableCalls (C09.P3): a function taken out of a map and called is nil when the key is missing (an attacker-chosen
+// tag, say). Every call whose callee is the value of a map lookup is on a path that knows the key to be present
+// (the comma-ok result) or the value to be non-nil.
+func tableCalls(x *Ctx, fns []*ssa.Function) {
+	for _, f := range fns {
+		var sites []*ssa.Call
+		for _, b := range f.Blocks {
+			for _, in := range b.Instrs {
+				c, ok := in.(*ssa.Call)
+				if !ok || c.Call.IsInvoke() || c.Call.StaticCallee() != nil {
+					continue
+				}
+				v := c.Call.Value
+				if e, isE := v.(*ssa.Extract); isE {
+					v = e.Tuple
+				}
+				if l, isL := v.(*ssa.Lookup); isL {
+					if _, isMap := l.X.Type().Underlying().(*types.Map); isMap {
+						sites = append(sites, c)
+					}
+				}
+			}
+		}
+		if len(sites) == 0 {
+			continue
+		}
+		ps := x.sitePaths(f)
+		for i, c := range sites {
+			bad, seen := "", false
+			for _, p := range ps {
+				if !p.InBlock(c.Block()) {
+					continue
+				}
+				seen = true
+				ft := p.Term(c.Call.Value)
+				known := false
+				for _, fc := range p.Facts {
+					if xx := paths.NilCheckOf(fc.Atom); xx != nil && xx.String() == ft.String() && !fc.Pol {
+						known = true
+					}
+					if fc.Pol && ft.Op == "extract" && len(ft.Args) == 1 && fc.Atom.String() == ft.Args[0].String()+"#1" {
+						known = true
+					}
+				}
+				if !known {
+					bad = fmt.Sprintf("%s: the function looked up in the table (%s) is called on a path that does not know the key to be present: a missing key gives a nil function", x.P.Pos(c.Pos()), ft)
+				}
+			}
+			if seen {
+				x.C.Obl("C09.P3", fmt.Sprintf("table-call:%s#%d", load.ShortName(f), i+1), x.P.Pos(c.Pos()), "a function taken out of a map is called only when the key is known to be present", bad == "", bad)
+			}
+		}
+	}
+}
